@@ -263,27 +263,30 @@ def run_compound(bufsize, lens, chunk_codes):
     return None
 
 
-@h(bounds="CompoundWriter buffer size 1..8, 1..3 member files of lengths 0..20 (from 6 values), written in interleaved chunks whose sizes cycle through 3 "
-          "symbolic values in 1..6; every member read back byte-identical; list/file_length/seek/tell",
+BUFS = tiered([1, 3, 4, 8], [1, 2, 3, 4, 5, 6, 7, 8])
+CLENS = tiered([0, 1, 5, 9], [0, 1, 5, 9, 20])
+NCH = tiered(3, 5)
+NBUF, NLEN = len(BUFS), len(CLENS)
+
+
+@h(bounds="CompoundWriter buffer size in %r, 1..3 member files of lengths from %r, written in interleaved chunks whose sizes alternate between 2 "
+          "symbolic values in 1..%d; every member read back byte-identical; list/file_length/seek/tell" % (BUFS, CLENS, NCH),
    funcs=["whoosh.filedb.compound.CompoundWriter", "whoosh.filedb.compound.CompoundStorage", "whoosh.filedb.compound.SubFile"],
-   examples=[dict(buf=4, n=2, l1=2, l2=3, l3=0, c1=0, c2=2, c3=1)], timeout=dict(quick=900, thorough=3000),
+   examples=[dict(buf=2, n=2, l1=2, l2=3, l3=0, c1=0, c2=2)], timeout=dict(quick=900, thorough=3000),
    outside="member files larger than 20 bytes, mmap-backed reading (checked end-to-end in C18)")
-def c20_compound(buf: int, n: int, l1: int, l2: int, l3: int, c1: int, c2: int, c3: int) -> Optional[str]:
+def c20_compound(buf: int, n: int, l1: int, l2: int, l3: int, c1: int, c2: int) -> Optional[str]:
     """
-    pre: 1 <= buf <= 8 and 1 <= n <= 3 and 0 <= l1 < 6 and 0 <= l2 < 6 and 0 <= l3 < 6
-    pre: 0 <= c1 < NCH and 0 <= c2 < NCH and 0 <= c3 < NCH
+    pre: 0 <= buf < NBUF and 1 <= n <= 3 and 0 <= l1 < NLEN and 0 <= l2 < NLEN and 0 <= l3 < NLEN
+    pre: 0 <= c1 < NCH and 0 <= c2 < NCH
     post: _ is None
     """
-    LENS = [0, 1, 5, 9, 16, 20]
+    n0 = n - 1
     with notrace():
-        nn = pick(n - 1, 3) + 1
-        ls = [LENS[pick(l1, 6)], LENS[pick(l2, 6)] if nn > 1 else 0, LENS[pick(l3, 6)] if nn > 2 else 0][:nn]
-        r = run_compound(pick(buf - 1, 8) + 1, ls, [pick(c1, NCH), pick(c2, NCH), pick(c3, NCH)])
+        nn = pick(n0, 3) + 1
+        ls = [CLENS[pick(l1, NLEN)], CLENS[pick(l2, NLEN)] if nn > 1 else 0, CLENS[pick(l3, NLEN)] if nn > 2 else 0][:nn]
+        r = run_compound(BUFS[pick(buf, NBUF)], ls, [pick(c1, NCH), pick(c2, NCH)])
     tick(True)
     return r
-
-
-NCH = tiered(4, 6)
 
 
 # ------------------------------------------------------------------ external sort
@@ -308,6 +311,7 @@ def c20_sortingpool(m: int, codes: List[int]) -> Optional[str]:
     """
     from harness.c07_model import sym_true_idx
     VALS = [(1, b"a"), (1, b"b"), (2, b""), (0, b"zz")]
+    m0 = m - 1
     with notrace():
         n = 0
         for k in range(NS + 1):
@@ -315,7 +319,7 @@ def c20_sortingpool(m: int, codes: List[int]) -> Optional[str]:
                 n = k
                 break
         items = [VALS[pick(sym_true_idx(codes, i), 4)] for i in range(n)]
-        r = run_sort(pick(m - 1, 4) + 1, items)
+        r = run_sort(pick(m0, 4) + 1, items)
     tick(n > 1)
     return r
 
